@@ -93,7 +93,7 @@ def error_fn_rules(crate, path, loc_fn, res, rule):
     idx = {x.path: x for x in crate.bodies}
 
     def helper(callee):
-        return callee.kind == "Fn" and callee.impl_trait is None and callee.path not in KEEP and callee.path.startswith("errors::") and \
+        return callee.kind in ("Fn", "AssocFn") and callee.impl_trait is None and callee.path not in KEEP and callee.path.startswith("errors::") and callee.name != "new" and \
             not any(inline._fn_of(bl["term"]) is not None and inline._fn_of(bl["term"]).get("path") == callee.path for bl in callee.blocks if bl["term"]["k"] == "call")
     nb, _u = inline.inline_body(crate, b, idx, 0, helper)
     if nb is not None:
@@ -122,7 +122,7 @@ def error_fn_rules(crate, path, loc_fn, res, rule):
             continue
         fields, has_loc, calls, args = arm_dependence(v, crate, reg, var)
         if not args:
-            fs.append(fnd(rule, v, "the %s message is not built by formatting" % var))
+            fs.append(und(rule, v, "how the %s message is built was not read (no formatting found on its arm): not recognised (undecided)" % var))
             continue
         miss = NEED[var] - fields
         if miss:
@@ -158,7 +158,22 @@ def error_fn_rules(crate, path, loc_fn, res, rule):
                     if cur == ("field", ("param", 2), var, "accepted") and not any(x and any(y in x for y in ("take", "skip", "filter", "step_by", "rev", "last", "nth")) for x in chain):
                         okj = "std::iter::Iterator::map" in chain and "core::slice::iter" in chain
             if not okj:
-                fs.append(fnd(rule, v, "the %s message does not list every accepted alternative" % var))
+                # written another way (an explicit loop, a helper that writes them out): a verdict only when the list is not even used
+                uses = 0
+                for bb_ in sorted(reg):
+                    tm_ = v.blocks[bb_]["term"]
+                    if tm_["k"] != "call":
+                        continue
+                    nm_ = call_name(v, ("call", bb_)) or ""
+                    if nm_ == "errors::helpers::did_you_mean":
+                        continue
+                    for a_ in tm_["args"]:
+                        if term_mentions(deep(v, v.origin(a_)), lambda x: x[0] == "field" and x[2] == var and x[3] == "accepted" and strip_refs(x[1]) == ("param", 2)):
+                            uses += 1
+                if uses:
+                    fs.append(und(rule, v, "how the %s message lists the accepted alternatives was not read (not the iter().map().collect().join() chain): not recognised (undecided)" % var))
+                else:
+                    fs.append(fnd(rule, v, "the %s message does not list every accepted alternative" % var))
         if var == "BadSequenceLen":
             ob += 2
             lens = [c for c in calls if call_name(v, c) == "Sequence::len" and strip_refs(deep(v, c[3][0])) == ("field", ("param", 2), var, "actual")]
@@ -188,7 +203,7 @@ def error_fn_rules(crate, path, loc_fn, res, rule):
                     okm = True
     ps = [bb for bb, c in v.calls() if c.fn is not None and c.base() == "std::string::String::push_str"]
     if not okm or len(ps) > 1:
-        fs.append(fnd(rule, v, "the error does not carry the formatted message"))
+        fs.append(und(rule, v, "how the built text ends up in the error was not read (not `message.push_str(text); Break(Self::new(message))`): not recognised (undecided)"))
     elif len(ps) == 1:
         # message.push_str(&<value produced by the arms>)
         a1 = strip_refs(deep(v, v.origin(v.blocks[ps[0]]["term"]["args"][1])))
